@@ -71,6 +71,40 @@ def orient_seam(ctx, rng):
             ctx.violation("rotation-invertible", dict(case=dict(record=r2, a=a)), seam="orient_sensor_to")
 
 
+def preprocess_orientation(ctx, rng):
+    """hvsrpy.preprocess(..., orient_to_degrees_from_north=t): every target incl. exactly 0 / 0.0 / 360 / None"""
+    import hvsrpy
+    lines, cases = [], []
+    for j in range(ctx.budget(60, 600)):
+        dep = pick_angle(rng)
+        tgt = [0, 0.0, 360.0, -360.0, None, 90.0, pick_angle(rng), pick_angle(rng)][j % 8]
+        kind = ["hvsr", "psd"][j % 2]
+        rec = pg.gen_record(rng, n=int(rng.integers(8, 30)), deg=dep, scale=1.0)
+        sr = pg.make_srecord(rec)
+        cur = float(sr.degrees_from_north)
+        kw = dict(orient_to_degrees_from_north=tgt, filter_corner_frequencies_in_hz=[None, None], window_length_in_seconds=None, detrend=None)
+        st = hvsrpy.HvsrPreProcessingSettings(**kw) if kind == "hvsr" else hvsrpy.PsdPreProcessingSettings(**kw)
+        with quiet():
+            out = hvsrpy.preprocess([sr], st)
+        o = out[0]
+        cases.append(dict(kind=kind, deployed=dep, current=cur, target=tgt, ns=rec["ns"], ew=rec["ew"], impl_ns=o.ns.amplitude.tolist(), impl_ew=o.ew.amplitude.tolist(),
+                          impl_deg=float(o.degrees_from_north)))
+        lines.append(f"orient {hexf(cur)} {hexf(cur if tgt is None else tgt)} {fvec(rec['ns'])} {fvec(rec['ew'])}")
+    outs = run_driver(lines)
+    for c, o in zip(cases, outs):
+        t = Toks(o); t.tok()
+        mns, mew, mdeg = t.vec(), t.vec(), t.flt()
+        if c["target"] is None:
+            mdeg = c["current"]
+        ctx.case(("pre", c["kind"], c["current"], c["target"], c["ns"], c["ew"]), nontrivial=c["target"] is not None and abs(((c["target"] - c["current"]) % 90)) > 1e-9,
+                 sample=dict(preprocess=c["kind"], deployed=c["deployed"], target=c["target"], impl_deg=c["impl_deg"]))
+        ctx.count("preprocess-target:" + ("None" if c["target"] is None else "zero" if c["target"] == 0 else "other"))
+        ctx.traces += 1
+        if not (vclose(c["impl_ns"], mns, 1.0) and vclose(c["impl_ew"], mew, 1.0) and close(c["impl_deg"], mdeg, 360.0)):
+            ctx.violation("preprocessing-orients-the-sensor-to-the-requested-azimuth", dict(case=c, model_ns=mns, model_ew=mew, model_deg=mdeg),
+                          seam="hvsrpy.preprocess(orient_to_degrees_from_north)")
+
+
 def azimuth_processing(ctx, rng):
     """single azimuth / azimuthal / RotDpp on the implementation at the default FFT length + model correspondence at small n"""
     # model correspondence (records with non-zero orientation, azimuths outside [0,180))
@@ -167,6 +201,7 @@ def run(ctx):
                 "non-trivial = rotation angle not a multiple of 90 degrees (a), successful processing (b); distinct by input hash")
     rng = np.random.default_rng(ctx.seed)
     orient_seam(ctx, rng)
+    preprocess_orientation(ctx, rng)
     azimuth_processing(ctx, rng)
 
 
